@@ -29,6 +29,7 @@ pub mod c10;
 pub mod c11;
 pub mod c12;
 pub mod c13;
+pub mod c14;
 pub mod c15;
 pub mod c16;
 pub mod c17;
@@ -52,6 +53,7 @@ pub fn all() -> Vec<Box<dyn Check>> {
         Box::new(c11::C11),
         Box::new(c12::C12),
         Box::new(c13::C13),
+        Box::new(c14::C14),
         Box::new(c15::C15),
         Box::new(c16::C16),
         Box::new(c17::C17),
